@@ -543,14 +543,43 @@ def check_conjugation(ctx, rep, qual: str, setup_meth: str, use_meth: str):
     # eigh ⇒ V orthonormal; eig ⇒ only inverse allowed
     eigfn = cls.resolve('eigen')
     is_eigh = eigfn is not None and any((dotted_name(c.func) or '').endswith('eigh') for c in ast.walk(eigfn[1]) if isinstance(c, ast.Call))
-    rets = [n for n in ast.walk(ufn) if isinstance(n, ast.Return)]
-    if len(rets) != 1:
-        raise Unsupported(ufn, f"{key}: single return expected")
-    word = [role(x) for x in flatten_matmul(rets[0].value)]
-    norm_word = ['Vinv' if (w == 'Vt' and is_eigh) else w for w in word]
-    rep.check('C04.E', f"{key}::reconstruction-word", norm_word == ['Ainv', 'V', 'D', 'Vinv', 'A'], W, {'word': word, 'eigh': is_eigh},
-              f"{cls.name}.{use_meth} must return diag(1/√π)·V·diag(exp(λt))·V⁻¹·diag(√π); found {' · '.join(word)} — a transposed or swapped product is "
-              f"invisible under equal frequencies (JC69) but wrong for skewed ones")
+    rets = [n for n in ast.walk(ufn) if isinstance(n, ast.Return) and n.value is not None]
+    if not rets:
+        raise Unsupported(ufn, f"{key}: no return")
+    # name of the symmetrised matrix handed to eigen (S): exp(S·t) = diag(√π)·exp(Q·t)·diag(1/√π), so a path that exponentiates S directly must undo the similarity
+    s_name = eig_calls[0].args[0].id if isinstance(eig_calls[0].args[0], ast.Name) else None
+
+    def role2(e):
+        r0 = role(e)
+        if r0 != '?':
+            return r0
+        n = name_of(e)
+        v = sdefs[n][-1] if n and n in sdefs else e
+        for c in ast.walk(v):
+            if isinstance(c, ast.Call) and (dotted_name(c.func) or '').endswith('matrix_exp') and c.args:
+                inner = c.args[0]
+                if s_name and any(isinstance(x, ast.Name) and x.id == s_name for x in ast.walk(inner)) and any(isinstance(x, ast.Name) and x.id == ufn.args.args[1].arg for x in ast.walk(inner)):
+                    return 'EXPS'
+        return '?'
+    # the eigen path is the (last) return whose word contains V; every other return is an alternative path and must be a correct reconstruction as well
+    words = [[role2(x) for x in flatten_matmul(r.value)] for r in rets]
+    main = next((i for i in range(len(rets) - 1, -1, -1) if 'V' in words[i]), len(rets) - 1)
+    for i, (r, word) in enumerate(zip(rets, words)):
+        norm_word = ['Vinv' if (w == 'Vt' and is_eigh) else w for w in word]
+        if i == main:
+            rep.check('C04.E', f"{key}::reconstruction-word", norm_word == ['Ainv', 'V', 'D', 'Vinv', 'A'], W, {'word': word, 'eigh': is_eigh},
+                      f"{cls.name}.{use_meth} must return diag(1/√π)·V·diag(exp(λt))·V⁻¹·diag(√π); found {' · '.join(word)} — a transposed or swapped product is "
+                      f"invisible under equal frequencies (JC69) but wrong for skewed ones")
+        else:
+            ok_alt = norm_word in (['Ainv', 'EXPS', 'A'], ['Ainv', 'V', 'D', 'Vinv', 'A'])
+            if '?' in norm_word and not ok_alt:
+                rep.undecided('C04.E', f"{key}::alternative-return#{i}", where(cls.module, r), f"return path with an unrecognised factor: {' · '.join(word)}")
+            else:
+                rep.check('C04.E', f"{key}::alternative-return#{i}", ok_alt, where(cls.module, r), {'word': word},
+                          f"{cls.name}.{use_meth} has a second return path that returns {' · '.join(word)}; with S = diag(√π)·Q·diag(1/√π) the transition matrix is "
+                          f"diag(1/√π)·exp(S·t)·diag(√π): the similarity is undone the wrong way round, entry (i, j) is scaled by π_i/π_j (rows no longer sum to one unless the "
+                          f"frequencies are equal)")
+    rets = [rets[main]]
     # D = diag(exp(e * t))
     bl = ufn.args.args[1].arg
     okD = False
